@@ -1,6 +1,7 @@
 # C05 -- Run returns exactly when all work is done: no deadlock, no early return.
 import random
 from tools import vlib, t3
+from tools import ks
 
 MODULE = "PropC05"
 THEOREMS = ["C05_code_conforms", "C05_no_deadlock", "C05_terminates", "C05_not_early", "C05_all_done_at_return", "C05_param_feeder_may_lag", "C05_no_leftovers", "C05_nonvacuous", "C05_with_slots_no_deadlock", "C05_with_slots_terminates", "C05_with_slots_all_done", "C05_with_slots_maximal", "C05_with_slots_nonvacuous"]
@@ -177,10 +178,12 @@ def run(rep, tier, seed):
     results += t3.run_many(streaming_rerun_case, [(seed, i) for i in range(n // 8)])
     results += t3.run_many(component_case, [(seed, i) for i in range(n // 4)])
     results += t3.run_many(dangling_stream, [(seed, i) for i in range(n // 8)])
+    results += t3.run_many(ks.ks_case, [(seed, i, ("basic",)) for i in range(n // 6)])
     t3.report_t3(rep, MODULE, proved, results, "T3 termination / at-return snapshot")
     rep.cov["evaluations"] = len(results)
     rep.cov["distinct_nontrivial"] = len({r["spec"] for r in results if r["ntasks"] >= 1})
     rep.cov["rule"] = "workflow shapes (independent leaves with a slow one, a process without out-ports beside a slow leaf, a single port-less process, chains with more tasks than buffer slots, capacity-1 diamonds, out-port-less leaf plus parameter-only process) and random DAGs, SCIPIPE_BUFSIZE in {1,2,3}; streamed producer/consumer pairs run once and then twice more in place; workflows with FileSplitter (line counts that are exact multiples of the limit included), Concatenator and FileCombinator; streaming out-ports that nobody consumes (dangling, or the consumer cut off by RunTo, alone or beside a consumed stream; payloads up to several pipe buffers); a run must terminate (90 s bound), exit 0, and the snapshot the program takes right after Run returns must contain every predicted output and no temp dir / FIFO; every started command has ended; non-trivial = at least one task"
+    rep.cov["rule"] += "; plus kitchen-sink workflows (tools/ks.py: random workflows decorated with tagging components, sub-streams, Concatenator / FileSplitter, streamed pairs, component parameter feeders, Go-function and multi-core processes, RunTo) judged by the model-free basic (completion, nothing temporary at return, commands ended, slot bound) oracle"
     rep.cov["samples"] = [results[0]["spec"], results[2]["spec"]]
     rep.notes["input_distribution"] = {"runs": len(results), "tasks_executed_total": sum(r["ntasks"] for r in results), "max_wall_s": round(max(r["wall"] for r in results), 2)}
     rep.assump += ["a started command eventually exits (H-term)", "SCIPIPE_BUFSIZE >= 1", "theorems: merge-free balanced graphs; other shapes by correspondence"]
